@@ -111,6 +111,7 @@ func cmdCheck(args []string) int {
 	}
 	sel := E.Select(ps)
 	var obls []*Obligation
+	usesCnt := false
 	var unsupported []string
 	notes := map[string]bool{}
 	funcs := map[string]bool{}
@@ -121,6 +122,12 @@ func cmdCheck(args []string) int {
 			continue
 		}
 		funcs[fl.Func] = true
+		if fr.Enc != nil && fr.Enc.usesCnt {
+			usesCnt = true
+		}
+		if fr.Enc != nil && fr.Enc.usesRunEnd {
+			notes["definitional axioms of runEnd (first address outside a character class, bounded by the slice end)"] = true
+		}
 		for _, n := range fr.Notes {
 			notes[n] = true
 		}
@@ -137,6 +144,9 @@ func cmdCheck(args []string) int {
 		if f, ok := Analyses[a]; ok {
 			extra = append(extra, f(E, ps)...)
 		}
+	}
+	if usesCnt {
+		extra = append(extra, cntLemmas()...)
 	}
 	workers := runtime.NumCPU()
 	results := DischargeAll(obls, timeout, workers, *tier == "thorough")
@@ -420,4 +430,28 @@ func writeExtraReplay(dir, prop string, x *ExtraResult) string {
 	p := filepath.Join(dir, prop, sanitize(x.Name)+".txt")
 	os.WriteFile(p, []byte(fmt.Sprintf("obligation: %s\nkind: %s\n%s\n%s\n", x.Name, x.Kind, x.Detail, x.Replay)), 0o644)
 	return p
+}
+
+// cntLemmas discharges the induction proofs of the lemmas about cnt that the prelude states as axioms.
+func cntLemmas() []*ExtraResult {
+	var out []*ExtraResult
+	var names []string
+	for n := range CntLemmaProofs {
+		names = append(names, n)
+	}
+	sort.Strings(names)
+	os.MkdirAll(WorkDir, 0o755)
+	for _, n := range names {
+		f, err := os.CreateTemp(WorkDir, "l*.smt2")
+		if err != nil {
+			continue
+		}
+		f.WriteString(CntLemmaProofs[n])
+		f.Close()
+		ans, _, _ := runSolver(Solvers[0], 20, f.Name())
+		os.Remove(f.Name())
+		out = append(out, &ExtraResult{Name: n, Kind: "lemma", OK: ans == "unsat", By: Solvers[0].Name,
+			Detail: "induction proof of a cnt lemma from the recursive definition (must be unsat); solver answered " + ans, Note: "no-failing-input-found"})
+	}
+	return out
 }
